@@ -308,4 +308,105 @@ theorem inv_final (S : Sem T PJ X V A) (c : Config) {u v : Flags × St PJ X V A}
   | synced h1 h2 h3 h4 h5 h6 h7 => exact ⟨h3, h4, h5⟩
   | edited h1 h2 h3 h4 h5 h6 => exact ⟨h4, h5, h6⟩
 
+/-! ### particle edits through the step callbacks -/
+
+theorem sync_isSync_unsafe (S : Sem T PJ X V A) (c : Config) (u : Flags × St PJ X V A) :
+    (apply S (c.mode false false) .synchronize u).1.isSync = true := by
+  rw [apply_sync]
+  cases hs : (initF u.1).isSync
+  · rw [syncOps_unsync _ _ hs]; simp
+  · rw [syncOps_sync _ _ hs]; exact hs
+
+theorem run_append (S : Sem T PJ X V A) (c : Config) (a b : List (Op (X × V))) (x : Flags × St PJ X V A) :
+    run S c (a ++ b) x = run S c b (run S c a x) := by
+  induction a generalizing x with
+  | nil => rfl
+  | cons o os ih => exact ih _
+
+/-- synchronize, then the callback's edit, then the recalculate flag (unsafe run) against edit and
+    flag (safe run) -/
+theorem inv_sync_edit (S : Sem T PJ X V A) (c : Config) (w : X × V) {u v : Flags × St PJ X V A}
+    (h : Inv S c u v) :
+    Inv S c (run S (c.mode false false) [.synchronize, .poke w, .setRecalc] u)
+      (run S (c.mode true false) [.poke w, .setRecalc] v) := by
+  have hi := sync_isSync_unsafe S c u
+  have h' := inv_sync S c h
+  show Inv S c (apply S (c.mode false false) .setRecalc (apply S (c.mode false false) (.poke w)
+      (apply S (c.mode false false) .synchronize u)))
+    (apply S (c.mode true false) .setRecalc (apply S (c.mode true false) (.poke w) v))
+  generalize apply S (c.mode false false) .synchronize u = u1 at hi h' ⊢
+  cases h' with
+  | fresh h1 h2 h3 =>
+    refine Inv.fresh _ _ ?_ ?_ ?_
+    · show ({ u1.2 with pos := w.1, vel := w.2 } : St PJ X V A) = { v.2 with pos := w.1, vel := w.2 }
+      rw [h1]
+    · show initF { u1.1 with recalc := true } = _
+      rw [initF_setRecalc, h2]
+    · show initF { v.1 with recalc := true } = _
+      rw [initF_setRecalc, h3]
+  | unsync h1 h2 h3 h4 h5 => rw [h1] at hi; cases hi
+  | synced h1 h2 h3 h4 h5 h6 h7 =>
+    refine Inv.edited _ _ ?_ ?_ ?_ h3 rfl rfl
+    · show ({ u1.1 with recalc := true } : Flags) = _
+      rw [h1]
+    · show ({ v.1 with recalc := true } : Flags).isSync = true
+      rw [h2]
+    · show ({ v.1 with recalc := true } : Flags).allocated = true
+      rw [h2]
+  | edited h1 h2 h3 h4 h5 h6 =>
+    refine Inv.edited _ _ ?_ h2 h3 h4 rfl rfl
+    show ({ u1.1 with recalc := true } : Flags) = _
+    rw [h1]
+
+theorem inv_macro {S : Sem T PJ X V A} (L : Laws S) (c : Config)
+    (hC : InverseOn S (corrBlk c)) (hC2 : InverseOn S (c2Blk c)) (m : MOp (X × V))
+    {u v : Flags × St PJ X V A} (h : Inv S c u v) :
+    Inv S c (run S (c.mode false false) m.expand u)
+      (run S (c.mode true false) (m.expand.filter Op.isKept) v) := by
+  cases m with
+  | synchronize => exact inv_sync S c h
+  | read => exact h
+  | cbStep pre post =>
+    have hstep : ∀ {u v}, Inv S c u v →
+        Inv S c (run S (c.mode false false) [.step] u) (run S (c.mode true false) [.step] v) :=
+      fun h => inv_step L c hC hC2 h
+    cases pre <;> cases post <;>
+      simp only [MOp.expand, cbStepPlan, List.nil_append, List.append_nil, List.cons_append, List.filter,
+        Op.isKept]
+    · exact hstep h
+    · show Inv S c (run S _ ([.step] ++ [.synchronize, .poke _, .setRecalc]) u)
+        (run S _ ([.step] ++ [.poke _, .setRecalc]) v)
+      rw [run_append, run_append]
+      exact inv_sync_edit S c _ (hstep h)
+    · show Inv S c (run S _ ([.synchronize, .poke _, .setRecalc] ++ [.step]) u)
+        (run S _ ([.poke _, .setRecalc] ++ [.step]) v)
+      rw [run_append, run_append]
+      exact hstep (inv_sync_edit S c _ h)
+    · show Inv S c (run S _ ([.synchronize, .poke _, .setRecalc] ++ ([.step] ++ [.synchronize, .poke _, .setRecalc])) u)
+        (run S _ ([.poke _, .setRecalc] ++ ([.step] ++ [.poke _, .setRecalc])) v)
+      rw [run_append, run_append, run_append, run_append]
+      exact inv_sync_edit S c _ (hstep (inv_sync_edit S c _ h))
+
+theorem filter_flatMap_expand (l : List (MOp (X × V))) :
+    (expandAll l).filter Op.isKept = l.flatMap (fun m => m.expand.filter Op.isKept) := by
+  induction l with
+  | nil => rfl
+  | cons m ms ih =>
+    show ((m.expand ++ expandAll ms).filter Op.isKept) = _
+    rw [List.filter_append, ih]; rfl
+
+theorem inv_macro_run {S : Sem T PJ X V A} (L : Laws S) (c : Config)
+    (hC : InverseOn S (corrBlk c)) (hC2 : InverseOn S (c2Blk c)) (l : List (MOp (X × V)))
+    (u v : Flags × St PJ X V A) (h : Inv S c u v) :
+    Inv S c (run S (c.mode false false) (expandAll l) u)
+      (run S (c.mode true false) ((expandAll l).filter Op.isKept) v) := by
+  rw [filter_flatMap_expand]
+  induction l generalizing u v with
+  | nil => exact h
+  | cons m ms ih =>
+    show Inv S c (run S _ (m.expand ++ expandAll ms) u)
+      (run S _ (m.expand.filter Op.isKept ++ ms.flatMap (fun m => m.expand.filter Op.isKept)) v)
+    rw [run_append, run_append]
+    exact ih _ _ (inv_macro L c hC hC2 m h)
+
 end RV.Sync
